@@ -269,7 +269,8 @@ func judge(c cfg, res result) *eng.Violation {
 	}
 	got := map[string]bool{}
 	for _, b := range res.batches {
-		if c.Router == 0 && c.Batch >= 0 && len(b) > c.Batch {
+		// (a limit of 0 cannot be honoured together with "announce every key"; only limits >= 1 are judged)
+		if c.Router == 0 && c.Batch >= 1 && len(b) > c.Batch {
 			return mk("batch-too-large", fmt.Sprintf("ProvideMany was called with %d keys, MaxBatchSize is %d", len(b), c.Batch))
 		}
 		if len(b) == 0 {
@@ -411,7 +412,7 @@ func newE2() *e2stats {
 func allCases(thorough bool) (ws [][]int, cs []cfg) {
 	ml := 3
 	if thorough {
-		ml = 5
+		ml = 6
 	}
 	ws = append(words(ml), longWords()...)
 	return ws, configs()
@@ -571,9 +572,13 @@ func reprovidePart(r *eng.Run) {
 	if total.Expired {
 		r.Incomplete("reprovide part: budget hit")
 	}
-	sort.SliceStable(total.Viols, func(i, j int) bool {
-		return len(total.Viols[i].Replay.(map[string]any)["word"].([]any)) < len(total.Viols[j].Replay.(map[string]any)["word"].([]any))
-	})
+	wl := func(v *eng.Violation) int {
+		var c cfg
+		b, _ := json.Marshal(v.Replay)
+		json.Unmarshal(b, &c)
+		return len(c.Word)
+	}
+	sort.SliceStable(total.Viols, func(i, j int) bool { return wl(total.Viols[i]) < wl(total.Viols[j]) })
 	for _, v := range total.Viols {
 		r.Report(v)
 	}
